@@ -785,7 +785,11 @@ func treeNodeKey(idx int, n *crdt.TreeNode) string {
 // observe records the neighbours of every node of p's tree that is removed now
 // and was not seen removed before. Runs of nodes removed together share the
 // run's external boundaries.
-func (t *treeAnchorTrack) observe(p *Peer) {
+func (t *treeAnchorTrack) observe(p *Peer) { t.ObserveDoc(p.Idx, p.D) }
+
+// ObserveDoc is observe for a document that is not a Runner's peer.
+func (t *treeAnchorTrack) ObserveDoc(idx int, d *document.Document) {
+	p := &Peer{Idx: idx, D: d}
 	tr, ok := p.D.InternalDocument().Root().Object().Get("tr").(*crdt.Tree)
 	if !ok || tr == nil {
 		return
@@ -843,4 +847,59 @@ func (t *treeAnchorTrack) forDoc(r *Runner, d *document.Document) func(n *crdt.T
 		}
 		return t.seen[treeNodeKey(idx, n)]
 	}
+}
+
+// TreeAnchorTrack is the harness-side record of removal-time neighbours.
+type TreeAnchorTrack = treeAnchorTrack
+
+// NewTreeAnchorTrack returns an empty record.
+func NewTreeAnchorTrack() *TreeAnchorTrack { return &treeAnchorTrack{seen: map[string]*treeAnchors{}} }
+
+// ReviveAnchorsAdjacent evaluates the F33 trigger for one undo/redo entry on a
+// replica that still holds every tombstone the entry revives: ok reports that
+// every revived text/tree range has a live, physically adjacent ladder anchor
+// (see f33TextAnchorsAdjacent / f33TreeAnchorsAdjacent); revives reports
+// whether the entry revives anything at all; other reports operations other
+// than text/tree edits and counter increases in the entry.
+func ReviveAnchorsAdjacent(d *document.Document, ops []document.HistoryOperation, t *TreeAnchorTrack, idx int) (ok, revives, other bool) {
+	ok = true
+	rec := func(n *crdt.TreeNode) *treeAnchors { return t.seen[treeNodeKey(idx, n)] }
+	for _, h := range ops {
+		switch op := h.Op.(type) {
+		case *operations.Edit:
+			revive := op.RestoreSpans()
+			if op.RestoreMode() == crdt.RestoreModeRetombstone {
+				revive = op.RetombstoneSpans()
+			}
+			if op.RestoreMode() == crdt.RestoreModeNone {
+				revive = nil
+			}
+			if len(revive) > 0 {
+				revives = true
+				if !f33TextAnchorsAdjacent(d, op.ParentCreatedAt(), revive) {
+					ok = false
+				}
+			}
+		case *operations.TreeEdit:
+			revive := op.RestoreSpans()
+			if op.RestoreMode() == crdt.RestoreModeRetombstone {
+				revive = op.RetombstoneSpans()
+			}
+			if op.RestoreMode() == crdt.RestoreModeNone {
+				revive = nil
+			}
+			if len(revive) > 0 {
+				revives = true
+				if !f33TreeAnchorsAdjacent(d, op.ParentCreatedAt(), revive, rec) {
+					ok = false
+				}
+			}
+		case *operations.Increase:
+		default:
+			if h.Op != nil {
+				other = true
+			}
+		}
+	}
+	return ok, revives, other
 }
